@@ -164,6 +164,9 @@ def leg_text_docs(chk, tier):
         r = tlc("MC_DocDamage", cfg=cfg, env={"DOCS": dp}, timeout=3000, xmx="6g")
         chk.add_tlc("MC_DocDamage (%s)" % arch, r, {"documents": len(base)})
         scen = [dict(base[g["src"] - 1], doc=g["doc"], kind=g["kind"]) for g in r.printed("GEN")]
+        # every intact document of the space (not only the sample that gets damaged)
+        sampled = set(id(x) for x in base)
+        scen += [dict(x, kind="intact") for x in sc if id(x) not in sampled]
         pairs = mp.replay(scen, ["mem", "sstream", "short1", "short3", "nonseek", "file"], 8, "t" + arch[0], arch)
         by = {}
         for s, o in pairs:
